@@ -148,40 +148,41 @@ CLAIMS = {
 }
 # clauses added after the first version of the claims (seeding rounds 1 and 2, defects F17-F22)
 ALSO = {
-    "C01": "a memoised function over CRS-tagged operands keys on the operand or its CRS; a truncated/weakened guard (`crs is not None and ...`) does not count. CRS.__eq__ reads only construction-time state (EQLAZY, F26).",
+    "C01": "a memoised function over CRS-tagged operands keys on the operand or its CRS; a truncated/weakened guard (`crs is not None and ...`) does not count. CRS.__eq__ reads only construction-time state (EQLAZY, F26). Round 4: every point of a GCP point list is CRS-checked and an explicit crs= is compared with the CRS found on the operands (F57); EPSG text is rebuilt from the parsed code (F58); the shapely wrapper takes keyword operands (F59).",
     "C02": "integer index -> slice only after negative values were adjusted; GCP control-point frame <-> view frame conversions apply the view affine the right way; "
-           "every GCPGeoBox member whose GeoBox sibling is computed from the affine reads the view affine too. Every use of self._affine as a pixel->world mapping in the shared base class is overridden in GCPGeoBox or guarded by self.linear (F23); a COUNT is never the ceiling of a raw float quotient (F24); integer indexes may be numpy integers (F42).",
-    "C03": "the read-shrink rescaling is composed on the side of the dst->src transform that _can_paste validates; a mid-point is half the sum of the two ends. Boundary samples are double precision (F52); align=0 cannot reach a divisor (F28). Known finding: five boundary samples per side.",
-    "C04": "window-relative index in the assembler; tiling and geobox of a tile agree; locate siblings agree. An index is told from a slice in a way that covers numpy integers (F42).",
+           "every GCPGeoBox member whose GeoBox sibling is computed from the affine reads the view affine too. Every use of self._affine as a pixel->world mapping in the shared base class is overridden in GCPGeoBox or guarded by self.linear (F23); a COUNT is never the ceiling of a raw float quotient (F24); integer indexes may be numpy integers (F42). Round 4: fits wider than the affine terms solve in two steps or read the rank (F60); `rotate` works world-side; pad sizes are normalised before negation (F61, R-NUMNORM).",
+    "C03": "the read-shrink rescaling is composed on the side of the dst->src transform that _can_paste validates; a mid-point is half the sum of the two ends. Boundary samples are double precision (F52); align=0 cannot reach a divisor (F28). Known finding: five boundary samples per side. Round 4: the local scale is fitted against offsets from the point (F62); the overview shape of an empty source is empty (F62); padding/align normalised before negation (F63). ",
+    "C04": "window-relative index in the assembler; tiling and geobox of a tile agree; locate siblings agree. An index is told from a slice in a way that covers numpy integers (F42). Round 4: the variable tiling range-checks before indexing its offsets; the regular tiling builds chunks per axis without asking for a tile that may not exist (F64); tiling state assigned in constructors only.",
     "C05": "both axes are padded with the shared level count; the source is rechunked unless its whole chunk shape equals the layout's; the write-order list is not "
-           "re-sorted after the level reversal; every source block named from a layout tile index is bounded by the source's chunk grid (F21). Next-level shape/geobox prepared only while a next level exists; rechunk decided on the full chunk structure, not chunksize; RGB(A) shape heuristic only where the GeoBox cannot tell (F46, F47).",
-    "C06": "every normal exit of append logs what it stored; the lhs reservation reaches every chunk of a bunch. No part id handed to a writer is an integer literal: the header / left-over part uses write.min_part (F37).",
-    "C07": "the transformer cache key is complete (from, to, always_xy). The densify loop is reached only with a positive step (F31); the CRS construction cache publishes under a lock (F43).",
-    "C08": "origin comes from snap_grid; bbox of the polygon after re-projection. A region projected in order to cover it is densified (F32). Declared finding: shape=<int> snapped gives N+1.",
+           "re-sorted after the level reversal; every source block named from a layout tile index is bounded by the source's chunk grid (F21). Next-level shape/geobox prepared only while a next level exists; rechunk decided on the full chunk structure, not chunksize; RGB(A) shape heuristic only where the GeoBox cannot tell (F46, F47). Round 4: bounded empty-tile iterator for the header, byte order and bool normalised before header and tiles, no encoder for COMPRESSION.NONE (F66); block sizes may be numpy integers (F88).",
+    "C06": "every normal exit of append logs what it stored; the lhs reservation reaches every chunk of a bunch. No part id handed to a writer is an integer literal: the header / left-over part uses write.min_part (F37). Round 4: tasks never mutate an input (re-computable graph), part allocation reads max_part, the finalise key depends on the stream (F67). Declared finding: more partitions than part numbers.",
+    "C07": "the transformer cache key is complete (from, to, always_xy). The densify loop is reached only with a positive step (F31); the CRS construction cache publishes under a lock (F43). Round 4: the EPSG parse is guarded against compound codes (F58); densify never updates an alias of its step parameter in place (F69, R-NUMNORM); GeoJSON leaves may be numpy scalars (F90).",
+    "C08": "origin comes from snap_grid; bbox of the polygon after re-projection. A region projected in order to cover it is densified (F32). Declared finding: shape=<int> snapped gives N+1. Round 4: numeric anchors may be numpy floats (F89). Known finding: region densification independent of the requested pixel size.",
     "C09": "the Dataset variant does not route per-variable results through Dataset.map (attributes as computed by the DataArray sibling, F22); GeoBox/GCPGeoBox cached "
-           "by the accessor survive pickling (custom pickle hooks pass every constructor parameter feeding __eq__, no closures in state). No unconditional assert contradicts a Union annotation (F45).",
-    "C10": "rotation tolerance not relaxed; same shrink-side agreement as C03; no repeated operand in is_affine_st; explicit dst_nodata=0 is not treated as None. The bool detour maps nodata into the stretched domain (F53). Known findings: paste eligibility not extent-aware; rasterio's identity-transform special case.",
-    "C11": "the footprint is densified by the projection call on every branch; a square resolution is never built from one axis of the source; transformer key complete. Footprint buffer uses resolution magnitudes (F27). Declared finding: UTM zone across the antimeridian.",
-    "C12": "the emptiness test is on the intersection itself; footprint densified on every branch; no inward half-pixel shift of tile ranges. Tile queries densify a query in another CRS and accept an empty one (F33, F36); resolution magnitudes before max() (F27). Known finding: GEOSException on invalid lon/lat footprints.",
+           "by the accessor survive pickling (custom pickle hooks pass every constructor parameter feeding __eq__, no closures in state). No unconditional assert contradicts a Union annotation (F45). Round 4: is_affine_st compares rotation/shear with the scale terms (F70). Declared findings: float-noise inequality through the label round trip; GCPGeoBox view affine folded into the GCPs.",
+    "C10": "rotation tolerance not relaxed; same shrink-side agreement as C03; no repeated operand in is_affine_st; explicit dst_nodata=0 is not treated as None. The bool detour maps nodata into the stretched domain (F53). Known findings: paste eligibility not extent-aware; rasterio's identity-transform special case. Round 4: warp buffers in non-native byte order are converted, the integer detour clips before its unsafe cast (F71, F72). Declared findings: int64 through GDAL's double; GDAL's nodata avoidance.",
+    "C11": "the footprint is densified by the projection call on every branch; a square resolution is never built from one axis of the source; transformer key complete. Footprint buffer uses resolution magnitudes (F27). Declared finding: UTM zone across the antimeridian. Round 4: the same-CRS shortcut involves `tight` and the source's axis-alignment (F73); numbers select the scalar form by numbers.Real (F74, R-ISNUM). Known finding: footprint sampled with a fixed 100 points per side.",
+    "C12": "the emptiness test is on the intersection itself; footprint densified on every branch; no inward half-pixel shift of tile ranges. Tile queries densify a query in another CRS and accept an empty one (F33, F36); resolution magnitudes before max() (F27). Known finding: GEOSException on invalid lon/lat footprints. Round 4: candidate narrowing through world->pixel only for linear geoboxes (F75); scale snapping tolerance depends on raster size (F77); each destination tile's query is padded by a source pixel (F78).",
     "C13": "plane axis of the fill block; a hand-built array graph's layer name is unique or a token of every parameter reaching the tasks; a loop-local memo is keyed by "
-           "everything its value depends on; tile ranges round outwards. Tile queries densify (F33); GCPGeoBox sources accepted (F45). Known findings: invalid lon/lat footprints; declared: 0..360 longitude wrap.",
-    "C14": "a tile is yielded for a polygon query only under the not-disjoint test against that tile's extent; tile size per axis from that axis' resolution. Polygon query densifies, excludes touch-only contact and accepts an empty polygon (F33, F35).",
-    "C15": "band-last input is permuted exactly (Y,X,B)->(B,Y,X); one side-car memory file per layer; default-overview threshold is 512 pixels; explicit nodata first. Every final copy names its driver (F49); band layout from the caller's ydim (F54); every block window written. Known finding: 64-bit integer nodata through GDAL.",
+           "everything its value depends on; tile ranges round outwards. Tile queries densify (F33); GCPGeoBox sources accepted (F45). Known findings: invalid lon/lat footprints; declared: 0..360 longitude wrap. Round 4: as C12 (F75, F77, F78) and warp buffers (F71). Declared findings: per-chunk tie-breaking of aligned down-sampling; int64 through GDAL.",
+    "C14": "a tile is yielded for a polygon query only under the not-disjoint test against that tile's extent; tile size per axis from that axis' resolution. Polygon query densifies, excludes touch-only contact and accepts an empty polygon (F33, F35). Round 4: web_tiles passes the exactly computed tile size to the constructor and normalises its zoom (F79); idx_bounds tolerance is absolute. Declared finding: 1e-8 tolerance below one ulp far from the origin.",
+    "C15": "band-last input is permuted exactly (Y,X,B)->(B,Y,X); one side-car memory file per layer; default-overview threshold is 512 pixels; explicit nodata first. Every final copy names its driver (F49); band layout from the caller's ydim (F54); every block window written. Known finding: 64-bit integer nodata through GDAL. Round 4: float nodata handed to GDAL as stored in the pixel type (F80); the position of the x dimension is looked at (F81). Declared finding: CRSs GeoTIFF cannot express are dropped.",
     "C16": "overlap_roi clamps both ends of both ranges (F18); every box contributes to the union fold; an almost-integer translation is rounded, not truncated; "
-           "sub-pixel parts only through odc.geo.math helpers. project/enclosing densify (F33). Known finding: numpy.isclose default tolerance on scale terms.",
-    "C17": "roi_pad normalises through the negative-index path; rounding of scaled_down_shape is upward. Negative slice bounds clamp at 0 (F29); an optional alignment parameter cannot be 0 where it divides (F28).",
+           "sub-pixel parts only through odc.geo.math helpers. project/enclosing densify (F33). Known finding: numpy.isclose default tolerance on scale terms. Round 4: union skips operands without pixels (F83); the near-integer tolerance has a floating-point-spacing term (F82). Declared finding: operand-order dependent last bits of the result affine.",
+    "C17": "roi_pad normalises through the negative-index path; rounding of scaled_down_shape is upward. Negative slice bounds clamp at 0 (F29); an optional alignment parameter cannot be 0 where it divides (F28). Round 4: _norm_slice clamps past the end and converts bounds with operator.index before arithmetic; roi_is_full accepts any Sequence shape (F63). Declared finding: roi_is_full on an over-long stop (pinned by a stable test).",
     "C18": "the shared distributed Variable is written on the worker path only inside the lock region; the file sink appends only after the first part replaced the "
-           "destination; a configured limit of 0 is reported, not replaced by the default. File sink moves the first part with a copy fallback and never mmaps an empty part (F39).",
+           "destination; a configured limit of 0 is reported, not replaced by the default. File sink moves the first part with a copy fallback and never mmaps an empty part (F39). Round 4: under a shared parts_base the parts directory derives from the full destination path (F84); S3 writer tokens cover the endpoint (F85).",
     "C19": "no class pickled by the default protocol stores a closure (F19); GeoJSON readers on the unpickle path handle GeometryCollection (F20); __reduce__ passes every "
-           "constructor parameter feeding __eq__; a case fold in a cache key is matched by the same fold of the cached value. Equality/hash/token read construction-time state only (EQLAZY, F26); the pinning cache publishes under a lock (IDPIN-ATOMIC, F43).",
-    "C20": "abs() is never taken after a directional rounding of a signed value; a fallback_* parameter never conditions the measurement it stands in for. pow2 idioms; ceil of float quotients snapped; isclose with explicit relative tolerance.",
+           "constructor parameter feeding __eq__; a case fold in a cache key is matched by the same fold of the cached value. Equality/hash/token read construction-time state only (EQLAZY, F26); the pinning cache publishes under a lock (IDPIN-ATOMIC, F43). Round 4: no ndarray field returned raw from __dask_tokenize__ (TOKENRAW, F64/F65); EPSG text canonical (F58); integer codes may be numpy integers (F87).",
+    "C20": "abs() is never taken after a directional rounding of a signed value; a fallback_* parameter never conditions the measurement it stands in for. pow2 idioms; ceil of float quotients snapped; isclose with explicit relative tolerance. Round 4: polynomial fits rank-safe (F60).",
 }
 _GENERIC = (
     " Over the anchored modules also: no repeated operand of and/or / self-comparison / repeated elif test (R-DUP), no truth test of an optional-number "
     "parameter (R-TRUTHY), no absolute-epsilon affine predicate on a pixel->world affine (R-ABSEPS), no under-keyed loop-local memo (R-MEMO), no fmod/modf/trunc "
     "outside odc.geo.math (R-REMAINDER), no caller tolerance through math.isclose's default rel_tol (R-TOL), no single-precision coordinates on the planning path "
     "(R-PRECISION), no signed resolution inside max()/min() (R-SIGNMAG), no optional divisor that may be 0 (R-ZERODIV), no vertex-only projection of a covering region "
-    "(R-DENSIFY), no while loop stepping by an unchecked parameter (R-TERMINATION), no int-only index test (R-INTIDX), no assert against the own annotation (R-ANNOT); "
+    "(R-DENSIFY), no while loop stepping by an unchecked parameter (R-TERMINATION), no int-only index test (R-INTIDX), no assert against the own annotation (R-ANNOT), no negation / in-place update of an integer or step parameter in the caller's numeric type (R-NUMNORM), "
+    "no isinstance(param, int/float) dispatch (R-ISNUM); "
     "zero-count rules are re-armed on every run by in-memory positive controls."
 )
 for _k, _c in CLAIMS.items():
